@@ -178,3 +178,15 @@ MUTANTS += [
          edits=[('bmtree/decode.go', '\tfor _, p := range paths {\n\t\tidx := PathToIndex(bitmapSize, p)\n\n\t\twordI := idx >> 6\n\n\t\tif int32(len(bm)) > wordI && bm[wordI]&(1<<uint(idx&63)) != 0 {\n\t\t\trst = append(rst, p)\n\t\t}\n\t}\n\treturn rst',
                  '\tfilter := func(ps []uint64) []uint64 {\n\t\tout := make([]uint64, 0)\n\t\tfor _, p := range ps {\n\t\t\tidx := PathToIndex(bitmapSize, p)\n\t\t\twordI := idx >> 6\n\t\t\tif int32(len(bm)) > wordI && bm[wordI]&(1<<uint(idx&63)) != 0 {\n\t\t\t\tout = append(out, p)\n\t\t\t}\n\t\t}\n\t\treturn out\n\t}\n\thalf := len(paths) / 2\n\tdone := make(chan []uint64)\n\tgo func() { done <- filter(paths[half:]) }()\n\trst = append(rst, filter(paths[:half])...)\n\trst = append(rst, <-done...)\n\treturn rst')]),
 ]
+MUTANTS += [
+    # ---- visible only on a 32-bit build (uint is 32 bits): found by the GOARCH=386 pass
+    dict(name='w32-c01-onescount-uint', props=['C01'],
+         desc='IndexRank64 counts with bits.OnesCount(uint(w)): identical on amd64, drops bits 32..63 where uint is 32 bits',
+         edits=[('bitmap/rank.go', 'n += int32(bits.OnesCount64(words[i]))', 'n += int32(bits.OnesCount(uint(words[i])))', 0)]),
+    dict(name='w32-c13-nextone-trailingzeros-uint', props=['C13'],
+         desc='NextOne locates the bit with bits.TrailingZeros(uint(word)): wrong on 32-bit builds when the next 1-bit is in the upper half of its word',
+         edits=[('bitmap/next.go', 'nxt = wordIdx<<6 + int32(bits.TrailingZeros64(word))', 'nxt = wordIdx<<6 + int32(bits.TrailingZeros(uint(word)))')]),
+    dict(name='w32-c16-firstdiff-leadingzeros-uint', props=['C16'],
+         desc='FirstDiffBits uses bits.LeadingZeros(uint(x)) on the 8-byte chunk difference: on 32-bit builds the upper half is cut off',
+         edits=[('sigbits/firstdiff.go', 'first := bits.LeadingZeros64(au ^ bu)', 'first := bits.LeadingZeros(uint(au ^ bu))')]),
+]
